@@ -208,4 +208,17 @@ theorem Enc.string_ext (e : Enc) (h : e.Inv) (cs : List Nat) (hcs : ∀ c ∈ cs
     refine ⟨e'', by simp [Enc.string, he, he'], ?_⟩
     simpa [stringBits, listBits] using (h1.trans hx).trans hx'
 
+theorem Enc.list_ext {α : Type} (f : Enc → α → Option Enc) (spec : α → List Bool) (items : List α)
+    (hf : ∀ a ∈ items, ∀ e : Enc, e.Inv → ∃ e', f e a = some e' ∧ Enc.Ext e e' (spec a))
+    (e : Enc) (h : e.Inv) : ∃ e', Enc.list f e items = some e' ∧ Enc.Ext e e' (listBits spec items) := by
+  induction items generalizing e with
+  | nil => exact ⟨_, rfl, Enc.zero_ext e h⟩
+  | cons a items ih =>
+    have h1 := Enc.one_ext e h
+    obtain ⟨e', he, hx⟩ := hf a (by simp) _ h1.1
+    obtain ⟨e'', he', hx'⟩ := ih (fun a ha => hf a (by simp [ha])) e' hx.1
+    refine ⟨e'', by simp [Enc.list, he, he'], ?_⟩
+    simpa [listBits] using (h1.trans hx).trans hx'
+
+
 end PallasVerif.Flat
